@@ -116,13 +116,21 @@ func genC07(g *rand.Rand, tier string) any {
 		t.Timeout = time.Duration(1+g.IntN(3600)) * time.Second
 	}
 	p.Pos = g.IntN(3*(n+m) + 12)
+	aimedAtOpen := false
 	if p.Ambig && g.IntN(2) == 0 {
 		// the window this transport behaviour matters in is the opening write
 		p.Pos = g.IntN(3)
 		p.Links[0].Cap = 0 // the open returns only once the server has taken it
 		p.Deadline = false
+		aimedAtOpen = true
+		if g.IntN(2) == 0 {
+			// ... deterministically: the cancel lands while the open stands at the
+			// transport's entry; the transport lets it out and reports the context's error
+			p.WYield, p.MidWrite, p.Links[0].Strict = true, true, false
+			p.Pos = 0
+		}
 	}
-	if !p.Deadline && g.IntN(3) == 0 {
+	if !p.Deadline && !aimedAtOpen && g.IntN(3) == 0 {
 		// aimed: between a sender's last look at its context and its transport write (or,
 		// without the scheduling point at the transport's entry, its critical section)
 		p.MidWrite = true
